@@ -64,7 +64,9 @@ fn program(rng: &mut Rng, orig: u16, jump_out: Option<u16>, big_gap: Option<i32>
     // (label names that are words of the command language elsewhere - `pc`, `sp` - are plain labels)
     let names = *rng.pick(&[["first", "mid", "data", "last"], ["pc", "sp", "Main", "psr"], ["PC", "count", "Count", "lr"], ["first", "Pc", "data", "SP"],
         // labels whose bare name is a number to the command language (with an offset they are labels)
-        ["b10", "o17", "data", "B1"]]);
+        ["b10", "o17", "data", "B1"],
+        // labels that begin like a register and go on: labels, to every command
+        ["R0_SAVE", "r2d2", "data", "r7_"]]);
     if jump_out.is_some() {
         // the program's first two instructions take the PC out of user space
         items.push(Item::Stmt { label: None, stmt: Stmt::Ld(5, Target::Label("tgt_out".into())) });
